@@ -433,6 +433,101 @@ func C13(tier string) int {
 		}
 	}
 
+	// ---- every setter honours the checker: for each field, (only that field selected) and (every other field selected),
+	// with nil-pointer writes as well (a nil value must not bypass the checker)
+	{
+		strA, strB := "old", "new"
+		type fieldOp struct {
+			name   string
+			bucket bool
+			first  func(b *boltz.TypedBucket, c boltz.FieldChecker)
+			second func(b *boltz.TypedBucket, c boltz.FieldChecker)
+		}
+		fops := []fieldOp{
+			{"SetString", false, func(b *boltz.TypedBucket, c boltz.FieldChecker) { b.SetString("SetString", strA, c) }, func(b *boltz.TypedBucket, c boltz.FieldChecker) { b.SetString("SetString", strB, c) }},
+			{"SetStringP", false, func(b *boltz.TypedBucket, c boltz.FieldChecker) { b.SetStringP("SetStringP", &strA, c) }, func(b *boltz.TypedBucket, c boltz.FieldChecker) { b.SetStringP("SetStringP", &strB, c) }},
+			{"SetStringP(nil)", false, func(b *boltz.TypedBucket, c boltz.FieldChecker) { b.SetStringP("SetStringP(nil)", &strA, c) }, func(b *boltz.TypedBucket, c boltz.FieldChecker) { b.SetStringP("SetStringP(nil)", nil, c) }},
+			{"SetBool", false, func(b *boltz.TypedBucket, c boltz.FieldChecker) { b.SetBool("SetBool", false, c) }, func(b *boltz.TypedBucket, c boltz.FieldChecker) { b.SetBool("SetBool", true, c) }},
+			{"SetInt32", false, func(b *boltz.TypedBucket, c boltz.FieldChecker) { b.SetInt32("SetInt32", 1, c) }, func(b *boltz.TypedBucket, c boltz.FieldChecker) { b.SetInt32("SetInt32", 2, c) }},
+			{"SetInt64", false, func(b *boltz.TypedBucket, c boltz.FieldChecker) { b.SetInt64("SetInt64", 1, c) }, func(b *boltz.TypedBucket, c boltz.FieldChecker) { b.SetInt64("SetInt64", 2, c) }},
+			{"SetFloat64", false, func(b *boltz.TypedBucket, c boltz.FieldChecker) { b.SetFloat64("SetFloat64", 1.5, c) }, func(b *boltz.TypedBucket, c boltz.FieldChecker) { b.SetFloat64("SetFloat64", 2.5, c) }},
+			{"SetTime", false, func(b *boltz.TypedBucket, c boltz.FieldChecker) { b.SetTime("SetTime", tv, c) }, func(b *boltz.TypedBucket, c boltz.FieldChecker) { b.SetTime("SetTime", tv.Add(time.Hour), c) }},
+			{"SetTimeP", false, func(b *boltz.TypedBucket, c boltz.FieldChecker) { b.SetTimeP("SetTimeP", &tv, c) }, func(b *boltz.TypedBucket, c boltz.FieldChecker) {
+				t2 := tv.Add(time.Hour)
+				b.SetTimeP("SetTimeP", &t2, c)
+			}},
+			{"SetTimeP(nil)", false, func(b *boltz.TypedBucket, c boltz.FieldChecker) { b.SetTimeP("SetTimeP(nil)", &tv, c) }, func(b *boltz.TypedBucket, c boltz.FieldChecker) { b.SetTimeP("SetTimeP(nil)", nil, c) }},
+			{"GetAndSetString", false, func(b *boltz.TypedBucket, c boltz.FieldChecker) { b.GetAndSetString("GetAndSetString", strA, c) }, func(b *boltz.TypedBucket, c boltz.FieldChecker) { b.GetAndSetString("GetAndSetString", strB, c) }},
+			{"SetStringList", true, func(b *boltz.TypedBucket, c boltz.FieldChecker) {
+				b.SetStringList("SetStringList", []string{"o1", "o2"}, c)
+			}, func(b *boltz.TypedBucket, c boltz.FieldChecker) { b.SetStringList("SetStringList", []string{"n1"}, c) }},
+			{"SetStringList(empty)", true, func(b *boltz.TypedBucket, c boltz.FieldChecker) {
+				b.SetStringList("SetStringList(empty)", []string{"o1"}, c)
+			}, func(b *boltz.TypedBucket, c boltz.FieldChecker) { b.SetStringList("SetStringList(empty)", nil, c) }},
+			{"GetAndSetStringList", true, func(b *boltz.TypedBucket, c boltz.FieldChecker) {
+				b.GetAndSetStringList("GetAndSetStringList", []string{"o1"}, c)
+			}, func(b *boltz.TypedBucket, c boltz.FieldChecker) {
+				b.GetAndSetStringList("GetAndSetStringList", []string{"n1", "n2"}, c)
+			}},
+			{"PutMap", true, func(b *boltz.TypedBucket, c boltz.FieldChecker) {
+				b.PutMap("PutMap", map[string]interface{}{"k": "old"}, c, true)
+			}, func(b *boltz.TypedBucket, c boltz.FieldChecker) {
+				b.PutMap("PutMap", map[string]interface{}{"k": "new", "j": int64(1)}, c, true)
+			}},
+			{"PutMap(nil)", true, func(b *boltz.TypedBucket, c boltz.FieldChecker) {
+				b.PutMap("PutMap(nil)", map[string]interface{}{"k": "old"}, c, true)
+			}, func(b *boltz.TypedBucket, c boltz.FieldChecker) { b.PutMap("PutMap(nil)", nil, c, true) }},
+			{"PutList", true, func(b *boltz.TypedBucket, c boltz.FieldChecker) { b.PutList("PutList", []interface{}{"old"}, c) }, func(b *boltz.TypedBucket, c boltz.FieldChecker) { b.PutList("PutList", []interface{}{"new", "x"}, c) }},
+		}
+		for fi, target := range fops {
+			for _, mode := range []string{"only", "all-but"} {
+				checker := boltz.MapFieldChecker{}
+				for fj, f := range fops {
+					if (mode == "only") == (fi == fj) {
+						checker[f.name] = struct{}{}
+					}
+				}
+				rep.Count("evaluations", 1)
+				rep.Outcome("field-checker-per-setter")
+				var before, after *dump.Tree
+				err := d.db.Update(nil, func(ctx boltz.MutateContext) error {
+					root := boltz.GetOrCreatePath(ctx.Tx(), "root")
+					b, _ := root.EmptyBucket("c13")
+					for _, f := range fops {
+						f.first(b, nil)
+					}
+					before = dump.Tx(ctx.Tx())
+					for _, f := range fops {
+						f.second(b, checker)
+					}
+					after = dump.Tx(ctx.Tx())
+					return b.GetError()
+				})
+				what := fmt.Sprintf("%s %s", mode, target.name)
+				if err != nil {
+					fail("field-checker", what, err.Error())
+					continue
+				}
+				bb, ab := before.Get("root", "c13"), after.Get("root", "c13")
+				for _, f := range fops {
+					var same bool
+					if f.bucket {
+						same = bb.Buckets[f.name] != nil && ab.Buckets[f.name] != nil && bb.Buckets[f.name].Equal(ab.Buckets[f.name])
+					} else {
+						same = bytes.Equal(bb.Values[f.name], ab.Values[f.name])
+					}
+					selected := checker.IsUpdated(f.name)
+					if selected && same {
+						fail("field-checker", what+"/"+f.name, fmt.Sprintf("checker (%s) selects %s but the write did not change it", what, f.name))
+					}
+					if !selected && !same {
+						fail("field-checker", what+"/"+f.name, fmt.Sprintf("checker (%s) does not select %s but the write changed it", what, f.name))
+					}
+				}
+			}
+		}
+	}
+
 	// ---- compound keys
 	big := func(n int) string { return strings.Repeat("k", n) }
 	kelems := []string{"", "a", "b", "\x00", "\x80a", big(127), big(128), big(4096)}
